@@ -2,6 +2,7 @@ package main
 
 import (
 	"fmt"
+	"go/token"
 	"go/types"
 	"sort"
 	"strings"
@@ -727,6 +728,25 @@ func constSetOf(p *Program, v ssa.Value, depth int, seen map[string]bool) (map[s
 		return out, true
 	case *ssa.ChangeType:
 		return constSetOf(p, a.X, depth+1, seen)
+	case *ssa.Index:
+		// element of (a copy of) a package-level array of constants written only by its initialiser
+		if ld, ok := a.X.(*ssa.UnOp); ok && ld.Op == token.MUL {
+			if g, ok := ld.X.(*ssa.Global); ok {
+				n := 0
+				for _, st := range findGlobalElemStores(p, g) {
+					k, isC := st.Val.(*ssa.Const)
+					if st.Parent().Name() != "init" || !isC {
+						return nil, false
+					}
+					out[constStr(k)] = true
+					n++
+				}
+				if al, ok := arrayLen(ld.Type()); ok && int64(n) == al && len(findStores(p, nil, g)) == 0 {
+					return out, true
+				}
+			}
+		}
+		return nil, false
 	case *ssa.UnOp:
 		// element of a literal: every element store is a constant
 		ia, ok := a.X.(*ssa.IndexAddr)
@@ -739,6 +759,33 @@ func constSetOf(p *Program, v ssa.Value, depth int, seen map[string]bool) (map[s
 			arr, _ = b.X.(*ssa.Alloc)
 		case *ssa.Alloc:
 			arr = b
+		case *ssa.UnOp:
+			// element of a package-level table: its only store is the initialiser's literal
+			if g, ok := b.X.(*ssa.Global); ok && b.Op == token.MUL {
+				stores := findStores(p, nil, g)
+				if len(stores) != 1 || stores[0].Parent().Name() != "init" {
+					return nil, false
+				}
+				sv := stores[0].Val
+				if sl, ok := sv.(*ssa.Slice); ok {
+					arr, _ = sl.X.(*ssa.Alloc)
+				}
+			}
+		case *ssa.Global:
+			// a package-level array indexed directly: element stores happen in init only
+			n := 0
+			for _, st := range findGlobalElemStores(p, b) {
+				if st.Parent().Name() != "init" {
+					return nil, false
+				}
+				k, ok := st.Val.(*ssa.Const)
+				if !ok {
+					return nil, false
+				}
+				out[constStr(k)] = true
+				n++
+			}
+			return out, n > 0
 		}
 		if arr == nil {
 			return nil, false
@@ -763,4 +810,24 @@ func constSetOf(p *Program, v ssa.Value, depth int, seen map[string]bool) (map[s
 		return out, n > 0
 	}
 	return nil, false
+}
+
+// findGlobalElemStores: stores through IndexAddr of the package-level array g.
+func findGlobalElemStores(p *Program, g *ssa.Global) []*ssa.Store {
+	var out []*ssa.Store
+	for fn := range p.AllFunctions() {
+		if !FirstParty(fn) {
+			continue
+		}
+		for _, b := range fn.Blocks {
+			for _, in := range b.Instrs {
+				if s, ok := in.(*ssa.Store); ok {
+					if ia, ok := s.Addr.(*ssa.IndexAddr); ok && ia.X == ssa.Value(g) {
+						out = append(out, s)
+					}
+				}
+			}
+		}
+	}
+	return out
 }
